@@ -3,7 +3,7 @@ import ast
 
 import sympy as sp
 
-from ..kernels import run_public
+from ..kernels import run_public, run_public_forks
 from ..stencil import SV, Lab, ClsSym, LabelMismatch, c
 from ..stencil_spec import Cm, Cp
 from ..report import AnalysisError
@@ -35,17 +35,18 @@ def run_all(repo, R, rule="AXTYPE-K"):
     for name, qual, envf, ifh in RUNS:
         f = repo.func(qual)
         R.note_function(f.qualname)
-        try:
-            ex = run_public(repo, f, envf() if envf else None, ifh() if ifh else None)
-        except LabelMismatch as lm:
-            g = f
-            for cand in repo.all_functions():
-                if any(n is lm.node for n in ast.walk(cand.node)):
-                    g = cand
-            R.fail(rule, g.site, ast.unparse(lm.node)[:100], f"[{name}] axes of different provenance are combined: {lm.msg}", where=g.where(lm.node))
-            out.append((name, f, None))
-            continue
-        for sub in ex.all_extractors():
-            R.note_function(sub.func.qualname)
-        out.append((name, f, ex))
+        for choices, ex in run_public_forks(repo, f, envf, ifh):
+            tag = name + ("".join(f"[{k}={'T' if v else 'F'}]" for k, v in sorted(choices.items())) if choices else "")
+            if isinstance(ex, LabelMismatch):
+                lm = ex
+                g = f
+                for cand in repo.all_functions():
+                    if any(n is lm.node for n in ast.walk(cand.node)):
+                        g = cand
+                R.fail(rule, g.site, ast.unparse(lm.node)[:100], f"[{tag}] axes of different provenance are combined: {lm.msg}", where=g.where(lm.node))
+                out.append((tag, f, None))
+                continue
+            for sub in ex.all_extractors():
+                R.note_function(sub.func.qualname)
+            out.append((tag, f, ex))
     return out
